@@ -208,14 +208,35 @@ class Path:
                     ob.backend = "cvc5"
             if r is None:
                 r = s.check()
+            spurious = False
+            if r == z3.sat:
+                # z3 5.1 was seen answering `sat` with a model that falsifies an asserted formula over recursive
+                # functions (definitions not unfolded far enough). Such a model is no counterexample: validate it
+                # against the path condition and the negated goal, and treat a failure as `unknown`.
+                # (checked by pinning every constant to its model value in the same solver: ground evaluation under
+                # the solver's time limit; Model.eval has none and was seen not returning)
+                mdl = s.model()
+                snap = self.ctx.snapshot_model(mdl, self)
+                s.push()
+                try:
+                    for d in mdl.decls():
+                        if d.arity() == 0:
+                            s.add(d() == mdl[d])
+                    s.set("timeout", 3000)
+                    if s.check() == z3.unsat:
+                        spurious = True
+                except z3.Z3Exception:
+                    pass
+                s.pop()
+                s.set("timeout", self.ctx.query_timeout_ms)
             if r == z3.unsat:
                 ob.status = "unsat"
-            elif r == z3.sat:
+            elif r == z3.sat and not spurious:
                 ob.status = "sat"
-                ob.model = self.ctx.snapshot_model(s.model(), self)
+                ob.model = snap
             else:
                 ob.status = "unknown"
-                ob.reason = s.reason_unknown()
+                ob.reason = "z3 model falsifies the path condition (spurious)" if spurious else s.reason_unknown()
                 # second back end: cvc5 on the same query (SMT-LIB export of pc + negated goal)
                 if self.ctx.use_cvc5:
                     from .backends import cvc5_check
